@@ -104,6 +104,49 @@ Fixpoint tree_stats (ninf pinf : F) (t : mtree F) : sc :=
   | MSelf t' => sc_comb_self (tree_stats ninf pinf t')
   end.
 
+(* A session on a few RDD objects that are REUSED: the summaries handed out by rdd.stats() are merged with each other
+   (as receiver or as argument), merged with themselves, have values folded in -- and the same RDDs are asked for their
+   summaries again in between.  RDD.stats() runs a new aggregate() on every call and returns a fresh StatCounter, so
+   what was done to an earlier result cannot influence a later one: pushing / observing RDD i is always
+   rdd_stats (its partitions).  Each summary carries, as a ghost, the list of data it should describe. *)
+Inductive sop : Type :=
+| SPush (i : nat)      (* push rdds[i].stats() *)
+| SMerge               (* r = pop, l = pop, push l.mergeStats(r) *)
+| SSelf                (* s = pop, push s.mergeStats(s) *)
+| SFold (v : F)        (* s = pop, push s.merge(v) *)
+| SObserve (j : nat).  (* record rdds[j].stats() and the RDD-level accessors of rdds[j] *)
+
+Fixpoint session (ninf pinf : F) (rdds : list (list (list F))) (prog : list sop)
+         (stack obs : list (sc * list F)) : option (list (sc * list F) * list (sc * list F)) :=
+  match prog with
+  | [] => Some (rev obs, stack)
+  | SPush i :: p =>
+      match nth_error rdds i with
+      | Some parts => session ninf pinf rdds p ((rdd_stats ninf pinf parts, List.concat parts) :: stack) obs
+      | None => None
+      end
+  | SMerge :: p =>
+      match stack with
+      | (r, dr) :: (l, dl) :: st => session ninf pinf rdds p ((sc_comb l r, dl ++ dr) :: st) obs
+      | _ => None
+      end
+  | SSelf :: p =>
+      match stack with
+      | (s, d) :: st => session ninf pinf rdds p ((sc_comb_self s, d ++ d) :: st) obs
+      | _ => None
+      end
+  | SFold v :: p =>
+      match stack with
+      | (s, d) :: st => session ninf pinf rdds p ((sc_add s v, d ++ [v]) :: st) obs
+      | _ => None
+      end
+  | SObserve j :: p =>
+      match nth_error rdds j with
+      | Some parts => session ninf pinf rdds p stack ((rdd_stats ninf pinf parts, List.concat parts) :: obs)
+      | None => None
+      end
+  end.
+
 (* accessors; [None] is the NaN that variance()/sampleVariance() return for n = 0 / n <= 1 *)
 Definition st_count (s : sc) : Z := sc_n s.
 Definition st_mean (s : sc) : F := sc_mu s.
